@@ -20,7 +20,7 @@ func init() {
 		ID:    "C15",
 		Run:   runC15,
 		Level: "exploration",
-		Rule: "a run = a generated http/scenario description (1-3 weighted scenarios; per scenario an auth step capturing a token and a trace header, list / order / plain / pick steps (pick renders an element of the captured list into its URI; now and then an order or pick step stands before any list step, so that its preprocessor or its template fails before anything is sent) with multiplicities name(n), name(n, sleep), sleep(ms), min_waiting_time; URIs, headers and bodies templated from the token, the captured header, a [next] data-source row and a [next] element of a captured JSON array; assert/response on every step) " +
+		Rule: "a run = a generated http/scenario description (1-3 weighted scenarios; per scenario an auth step capturing a token and a trace header, list / order / plain / pick steps (pick renders an element of the captured list into its URI; now and then an order or pick step stands before any list step, so that its preprocessor or its template fails before anything is sent) with multiplicities name(n), name(n, sleep), sleep(ms), min_waiting_time; URIs, headers and bodies templated from the token, the captured header, a [next] data-source row, rows by position ([0], [last], [n-1], [rand]) and a [next] element of a captured JSON array; assert/response on every step) " +
 			"read by the real scenario provider, executed by the real http/scenario gun and engine with 1-4 instances against a real net/http server in the bubble whose answers (fresh tokens, item lists) and failures (500 against an assertion, connection closed without response, non-JSON body where a jsonpath is extracted) come from the tape; " +
 			"oracle = interpreter of the abstract description over the target's ordered log grouped by token: order, multiplicities, pauses, rendered values, nothing after the first failing step, one sample per executed step with the documented tag, invocation counts per weight, [next] rows consecutive; non-trivial = at least two instances or a failing step; distinct = distinct schedule-trace hash",
 		Components: map[string]string{
@@ -107,6 +107,9 @@ func c15YAML(scs []c15Scenario, rows int, plainPost bool) (string, string) {
 		fmt.Fprintf(&b, "  - name: %s_order\n    method: POST\n    uri: '/%s/order?t={{.request.%s_auth.postprocessor.token}}'\n    tag: o%d\n    headers:\n      Content-Type: application/json\n", p, p, p, i)
 		fmt.Fprintf(&b, "    body: '{\"item\": {{.request.%s_order.preprocessor.item}}}'\n    preprocessor:\n      mapping:\n        item: request.%s_list.postprocessor.items[next]\n    postprocessors:\n      - type: assert/response\n        status_code: 200\n", p, p)
 		fmt.Fprintf(&b, "  - name: %s_plain\n    method: GET\n    uri: '/%s/plain?t={{.request.%s_auth.postprocessor.token}}'\n    tag: p%d\n    headers:\n      X-Trace-Echo: '{{.request.%s_auth.postprocessor.trace}}'\n", p, p, p, i, p)
+		// data-source rows by position: the first, the last (by number and by [last]), a random one
+		fmt.Fprintf(&b, "      X-First: '{{.request.%s_plain.preprocessor.first}}'\n      X-Last: '{{.request.%s_plain.preprocessor.last}}'\n      X-LastN: '{{.request.%s_plain.preprocessor.lastn}}'\n      X-Rand: '{{.request.%s_plain.preprocessor.rnd}}'\n", p, p, p, p)
+		fmt.Fprintf(&b, "    preprocessor:\n      mapping:\n        first: source.users[0].name\n        last: source.users[last].name\n        lastn: source.users[%d].name\n        rnd: source.users[rand].name\n", rows-1)
 		if plainPost {
 			b.WriteString("    postprocessors:\n      - type: assert/response\n        status_code: 200\n")
 		}
@@ -123,7 +126,7 @@ func c15YAML(scs []c15Scenario, rows int, plainPost bool) (string, string) {
 }
 
 // c15HCL renders the same description in HCL.
-func c15HCL(scs []c15Scenario, plainPost bool) string {
+func c15HCL(scs []c15Scenario, rows int, plainPost bool) string {
 	var b strings.Builder
 	b.WriteString("variable_source \"users\" \"file/csv\" {\n  file              = \"/ammo/users.csv\"\n  fields            = [\"id\", \"name\"]\n  ignore_first_line = true\n  delimiter         = \",\"\n}\n")
 	for i := range scs {
@@ -135,7 +138,8 @@ func c15HCL(scs []c15Scenario, plainPost bool) string {
 		b.WriteString("  postprocessor \"var/jsonpath\" {\n    mapping = {\n      items = \"$.items\"\n    }\n  }\n  postprocessor \"assert/response\" {\n    status_code = 200\n  }\n}\n")
 		fmt.Fprintf(&b, "request \"%s_order\" {\n  method = \"POST\"\n  uri    = \"/%s/order?t={{.request.%s_auth.postprocessor.token}}\"\n  tag    = \"o%d\"\n  headers = {\n    Content-Type = \"application/json\"\n  }\n  body = <<EOF\n{\"item\": {{.request.%s_order.preprocessor.item}}}\nEOF\n", p, p, p, i, p)
 		fmt.Fprintf(&b, "  preprocessor {\n    mapping = {\n      item = \"request.%s_list.postprocessor.items[next]\"\n    }\n  }\n  postprocessor \"assert/response\" {\n    status_code = 200\n  }\n}\n", p)
-		fmt.Fprintf(&b, "request \"%s_plain\" {\n  method = \"GET\"\n  uri    = \"/%s/plain?t={{.request.%s_auth.postprocessor.token}}\"\n  tag    = \"p%d\"\n  headers = {\n    X-Trace-Echo = \"{{.request.%s_auth.postprocessor.trace}}\"\n  }\n", p, p, p, i, p)
+		fmt.Fprintf(&b, "request \"%s_plain\" {\n  method = \"GET\"\n  uri    = \"/%s/plain?t={{.request.%s_auth.postprocessor.token}}\"\n  tag    = \"p%d\"\n  headers = {\n    X-Trace-Echo = \"{{.request.%s_auth.postprocessor.trace}}\"\n    X-First      = \"{{.request.%s_plain.preprocessor.first}}\"\n    X-Last       = \"{{.request.%s_plain.preprocessor.last}}\"\n    X-LastN      = \"{{.request.%s_plain.preprocessor.lastn}}\"\n    X-Rand       = \"{{.request.%s_plain.preprocessor.rnd}}\"\n  }\n", p, p, p, i, p, p, p, p, p)
+		fmt.Fprintf(&b, "  preprocessor {\n    mapping = {\n      first = \"source.users[0].name\"\n      last  = \"source.users[last].name\"\n      lastn = \"source.users[%d].name\"\n      rnd   = \"source.users[rand].name\"\n    }\n  }\n", rows-1)
 		if plainPost {
 			b.WriteString("  postprocessor \"assert/response\" {\n    status_code = 200\n  }\n")
 		}
@@ -201,7 +205,7 @@ func runC15(r *R) {
 	descFile := "/ammo/scenario.yaml"
 	if w.Draw(4) == 0 {
 		// the same description written in HCL
-		yaml = c15HCL(scs, plainPost)
+		yaml = c15HCL(scs, rows, plainPost)
 		descFile = "/ammo/scenario.hcl"
 		r.Note("description:hcl")
 	}
@@ -460,6 +464,19 @@ func runC15(r *R) {
 				if te := strings.Join(rq.Hdr["X-Trace-Echo"], ","); te != in.auth.Trace {
 					r.Fail("variable-flow/header", "%s of an invocation whose auth response carried X-Trace: %s arrived with X-Trace-Echo: %q", rq.URI, in.auth.Trace, te)
 					return
+				}
+				if in.kinds[j] == "plain" {
+					first, last := "user0", fmt.Sprintf("user%d", rows-1)
+					hv := func(k string) string { return strings.Join(rq.Hdr[k], ",") }
+					rnd := hv("X-Rand")
+					rndOK := false
+					for q := 0; q < rows; q++ {
+						rndOK = rndOK || rnd == fmt.Sprintf("user%d", q)
+					}
+					if hv("X-First") != first || hv("X-Last") != last || hv("X-Lastn") != last || !rndOK {
+						r.Fail("variable-flow/source-index", "%s arrived with X-First=%q X-Last=%q X-LastN=%q X-Rand=%q; the data source has %d rows: want %s, %s, %s and one of its names", rq.URI, hv("X-First"), hv("X-Last"), hv("X-Lastn"), rnd, rows, first, last, last)
+						return
+					}
 				}
 				if in.kinds[j] == "list" {
 					if a := strings.Join(rq.Hdr["Authorization"], ","); a != "Bearer "+in.auth.Token {
